@@ -4,6 +4,7 @@ import (
 	"fmt"
 	"go/token"
 	"go/types"
+	"strings"
 
 	"golang.org/x/tools/go/ssa"
 
@@ -612,6 +613,13 @@ func ruleSyncCompletionsCovered(h *H, rule string) {
 			}
 		})
 		h.Verdict(bad == "", rule, "sync round in "+ir.FuncName(fn), h.pos(snap), "all requests of a round are received before the snapshot of the appended offset", bad)
+		// the offset marked as synced is the one read before the flush: what was appended
+		// while the flush ran is not covered by it
+		for _, fl := range h.P.CallsIn(fn, flush) {
+			ok := ir.Dominates(snap, fl)
+			h.Verdict(ok, rule, "synced offset read before the flush in "+ir.FuncName(fn), h.pos(snap), "the appended offset is read before ReadWriteSegment.Flush and stored after it",
+				"the offset stored as synced is read at "+h.pos(snap)+", not before the flush at "+h.pos(fl)+": entries appended while the flush was running are reported durable (LastOffset, follower acks, leader completions) although no flush covers them")
+		}
 		// the flush may only be skipped when the synced offset, read afresh in this round,
 		// already equals the snapshot: truncation / clear move the synced offset backwards,
 		// so a remembered copy can claim "already synced" for entries that are not
@@ -645,5 +653,155 @@ func ruleSyncCompletionsCovered(h *H, rule string) {
 	}
 	if n == 0 {
 		h.Anchor(rule, "the sync loop storing a snapshot of lastAppendedOffset into lastSyncedOffset after Flush")
+	}
+}
+
+// ruleCommittedContinuationsSucceed: once the commit offset has reached a queued request's
+// offset, the entry is committed — a fact that no longer depends on the caller. The
+// function that pops such a request from the queue must complete it successfully
+// (OnComplete): the leader applies the entry to its DB only in that continuation, so
+// completing it with an error (a cancelled context, ...) makes the leader skip an entry
+// that every follower and every replay applies.
+func ruleCommittedContinuationsSucceed(h *H, rule string) {
+	h.Rule(rule, "K1", "in the ack tracker every request popped from the commit queue is completed with OnComplete on every path (no OnCompleteError, no silent drop)", 1)
+	qt := h.implType(rule, "server", "QuorumAckTracker")
+	if qt == nil {
+		return
+	}
+	tn := qt.Obj().Name()
+	// the queue field: a slice of records holding a Callback
+	st, ok := qt.Underlying().(*types.Struct)
+	if !ok {
+		return
+	}
+	queue := ""
+	for i := 0; i < st.NumFields(); i++ {
+		if sl, isSl := st.Field(i).Type().Underlying().(*types.Slice); isSl {
+			if es, isSt := sl.Elem().Underlying().(*types.Struct); isSt {
+				for j := 0; j < es.NumFields(); j++ {
+					if ir.TypeIs(es.Field(j).Type(), "common/concurrent", "Callback") {
+						queue = st.Field(i).Name()
+					}
+				}
+			}
+		}
+	}
+	if queue == "" {
+		h.Anchor(rule, "the queue of waiting commit requests in "+tn)
+		return
+	}
+	n := 0
+	for _, w := range h.P.FieldWrites("server", tn, queue) {
+		// a pop: queue = queue[1:]
+		sl, isSlice := ir.Canon(w.Val).(*ssa.Slice)
+		if w.Val == nil || !isSlice || sl.Low == nil {
+			continue
+		}
+		fn := w.Fn
+		n++
+		h.Fn(ir.FuncName(fn))
+		isOk := func(in ssa.Instruction) bool {
+			c := ir.CallOf(in)
+			return c != nil && c.IsInvoke() && c.Method.Name() == "OnComplete" && ir.TypeIs(c.Value.Type(), "common/concurrent", "Callback")
+		}
+		bad := ""
+		// from the pop, every way to the next pop / to a return passes OnComplete
+		ir.Instrs(fn, func(in ssa.Instruction) {
+			if bad != "" {
+				return
+			}
+			_, isRet := in.(*ssa.Return)
+			if !isRet && in != w.Instr {
+				return
+			}
+			if r, path := ir.Reach(ir.Search{From: w.Instr, Barrier: isOk}, ir.Is(in)); r {
+				bad = "a request taken off the commit queue can be left without its success continuation " + witness(path) + ": the entry is committed (followers and replays apply it) but the leader, which applies it only in that continuation, skips it"
+			}
+		})
+		// and it is not failed
+		ir.Instrs(fn, func(in ssa.Instruction) {
+			c := ir.CallOf(in)
+			if c != nil && c.IsInvoke() && c.Method.Name() == "OnCompleteError" && bad == "" {
+				if r, _ := ir.Reach(ir.Search{From: w.Instr, Barrier: isOk}, ir.Is(in)); r {
+					bad = "a request taken off the commit queue is completed with an error at " + h.pos(in) + " although its entry is committed: the leader skips an entry that every follower and every replay applies"
+				}
+			}
+		})
+		h.Verdict(bad == "", rule, fmt.Sprintf("commit queue pop #%d in %s", n, ir.FuncName(fn)), h.pos(w.Instr), "every popped request reaches OnComplete", bad)
+	}
+	if n == 0 {
+		h.Anchor(rule, "the pop from the commit queue ("+tn+"."+queue+" = "+queue+"[1:])")
+	}
+}
+
+// ruleCommitCheckUnderLock: deciding "this offset is already committed, complete at once"
+// and putting the request on the queue otherwise must be one atomic step with respect to
+// the acks that advance the commit offset: both happen with the tracker mutex held.
+// Otherwise an ack between the test and the enqueue leaves the request on the queue
+// although its offset is committed (it is then completed late, out of offset order, or never).
+func ruleCommitCheckUnderLock(h *H, rule string) {
+	h.Rule(rule, "K2", "in the function that enqueues commit waiters every read of the commit offset is made with the tracker mutex held, in the critical section of the enqueue", 1)
+	qt := h.implType(rule, "server", "QuorumAckTracker")
+	if qt == nil {
+		return
+	}
+	tn := qt.Obj().Name()
+	n := 0
+	for _, root := range h.P.ImplMethods("server", "QuorumAckTracker", "WaitForCommitOffsetAsync") {
+		// the enqueue: a store to a slice field of the tracker built by append, in the
+		// method itself or in a helper extracted from it
+		var enq ssa.Instruction
+		var enqFn *ssa.Function
+		region := helperFuncs(root)
+		for _, fn := range region {
+			h.Fn(ir.FuncName(fn))
+			fn := fn
+			ir.Instrs(fn, func(in ssa.Instruction) {
+				st, ok := in.(*ssa.Store)
+				if !ok {
+					return
+				}
+				if c, isCall := ir.Canon(st.Val).(*ssa.Call); isCall {
+					if b, isB := c.Call.Value.(*ssa.Builtin); isB && b.Name() == "append" {
+						if r, isF := ir.FieldAddrOf(st.Addr); isF && r.Struct != nil && r.Struct.Obj().Name() == tn {
+							enq, enqFn = in, fn
+						}
+					}
+				}
+			})
+		}
+		if enq == nil {
+			continue
+		}
+		heldEnq := ir.HeldAt(enqFn)
+		for _, fn := range region {
+			fn := fn
+			held := ir.HeldAt(fn)
+			ir.Instrs(fn, func(in ssa.Instruction) {
+				c, ok := in.(*ssa.Call)
+				if !ok {
+					return
+				}
+				if _, isLoad := isAtomicCallOnField(c, "Load", "server", tn, "commitOffset"); !isLoad {
+					return
+				}
+				n++
+				locked := false
+				for l := range held[in] {
+					if !strings.HasPrefix(l, "R:") && heldEnq[enq][l] {
+						locked = true
+					}
+				}
+				same := false
+				if locked && fn == enqFn {
+					same, _ = ir.SameCriticalSection(fn, in, enq)
+				}
+				h.Verdict(locked && same, rule, fmt.Sprintf("commit offset read #%d in %s", n, ir.FuncName(root)), h.pos(in), "read and enqueue in one critical section of the tracker mutex",
+					"the commit offset is tested outside the critical section that enqueues the waiter: an ack that commits the offset in between finds no waiter, and the request stays queued although it is committed (completed late and out of order, or never)")
+			})
+		}
+	}
+	if n == 0 {
+		h.Anchor(rule, "reads of the commit offset in the WaitForCommitOffsetAsync implementation")
 	}
 }
